@@ -69,7 +69,8 @@ def run(ctx):
         accepted = set()
         for k in range(rng.choice([3, 4, 6])):
             try:
-                s, order, tags, marks = spell(m, rng, mix_labels=rng.random() < 0.4)
+                s, order, tags, marks = spell(m, rng, mix_labels=rng.random() < 0.4,
+                                               digits_after_branch=rng.choice([0, 0, 0, 0.5]))
             except ValueError:
                 ctx.count("too_many_open_labels")
                 break
